@@ -192,6 +192,27 @@ def behaviours(profile, maxlen, maxrefuse=1, maxgen=1, simulate=None, depth=None
     return hs, stats
 
 
+def oracle(scripts):
+    """the model's verdict on given call sequences (lists of action records): [{h, exp}] in order"""
+    import os
+    import tempfile
+    fd, path = tempfile.mkstemp(prefix='verif-boot-scripts-', suffix='.json')
+    try:
+        with os.fdopen(fd, 'w') as f:
+            json.dump({'scripts': scripts}, f)
+        cfg = MC_CFG % {'profile': 'script', 'maxlen': 0, 'maxrefuse': 0, 'maxgen': 0, 'dump': 'init',
+                        'dumper': 'DumpEdge'} + 'CONSTRAINT DumpInit\n'
+        out, stats = tlc.run_tlc('MC_boot', cfg, workers=1, timeout=600, env={'BOOT_SCRIPTS': path, 'JAVA_TOOL_OPTIONS': '-Xss512m'})
+    finally:
+        os.unlink(path)
+    tlc.need_ok(out, stats, 'MC_boot/script')
+    got = {}
+    for tag, v in tlc.tagged_lines(out):
+        if tag == 'HIST':
+            got[json.dumps([x['act'] for x in v['h']], sort_keys=True)] = v
+    return [got[json.dumps(sc, sort_keys=True)] for sc in scripts]
+
+
 # ---------------------------------------------------------------------------------------------
 # replay on the real library
 # ---------------------------------------------------------------------------------------------
@@ -353,17 +374,17 @@ def build_expect(exp, cfg):
         b = blob(e['blob'])
         assert len(b) == e['len'], 'blob table of the harness differs from the model'
         entries.append({'media': e['media'], 'count': e['count'], 'ind': e['ind'], 'plat': e['plat'],
-                        'systype': e['systype'], 'seg': e['seg'], 'patched': e['patched'], 'len': e['len'],
+                        'systype': e['systype'], 'seg': e['seg'], 'patched': e['patched'], 'loose': e['loose'], 'len': e['len'],
                         'names': names(e['name'], e['vis']), 'sha_file': sha(b), 'sha_file_nobit': sha(nobit(b)),
                         'csum_hex': csum32(b),
-                        'media_sha': sha(b) if e['media'] in FLOPPY and FLOPPY[e['media']] == len(b) and not e['patched'] else ''})
+                        'media_sha': sha(b) if e['media'] in FLOPPY and FLOPPY[e['media']] == len(b) and not e['loose'] else ''})
     files = []
     for f in exp['files']:
         b = blob(f['blob'])
         assert len(b) == f['len'], 'blob table of the harness differs from the model'
         for nm in names(f['name'], f['vis']):
             files.append({'ns': nm['ns'], 'path': nm['path'], 'len': f['len'], 'sha': sha(b),
-                          'sha_nobit': sha(nobit(b)), 'patched': f['patched']})
+                          'sha_nobit': sha(nobit(b)), 'patched': f['patched'], 'loose': f['loose']})
     hyb = dict(exp['hyb'])
     hyb['idgiven'] = hyb['idk'] != 'none'
     hyb['id_hex'] = '%08x' % (MBR_IDS[hyb['idk']] or 0)
@@ -475,6 +496,9 @@ def run_history(hist, cfgname, want_hybrid=False, keep_image=False):
             kinds = diff_kinds(data, d0)
             item['diffkinds'] = sorted(kinds)
             item['diffwhere'] = kinds
+            cyl = exp['hyb']['heads'] * exp['hyb']['sectors'] * 512
+            item['pad0'] = (-len(d0)) % cyl          # room between the end of the ISO and the cylinder boundary
+            item['cyl0'] = (len(d0) + item['pad0']) // cyl
     return res
 
 
@@ -497,31 +521,110 @@ def run_all(tasks, procs=16):
 # ---------------------------------------------------------------------------------------------
 # circumstances (model terms) that discriminate known findings
 # ---------------------------------------------------------------------------------------------
-def facts(hist, cfgname):
-    """facts about a behaviour, in model terms, used to describe a failing observation"""
-    h = hist['h']
-    exp = hist['exp']
-    acts = [s['act'] for s in h if s['out'] == 'ok']
+def facts(hist, cfgname, upto=None):
+    """facts about a behaviour, in model terms, used to describe a failing observation (the
+    discriminating circumstance of a known finding).  Recomputed from the accepted calls (the first
+    `upto` calls when the replay stopped early); classification only - TLC decides what fails."""
+    steps = hist['h'] if upto is None else hist['h'][:upto]
+    acts = [s['act'] for s in steps if s['out'] == 'ok']
     f = set()
+    files = {}         # name -> blob
+    ents = []          # entries of the current catalog
+    hyb = None
     bit_seen = False
-    for a in acts:
-        if a['a'] == 'AddEltorito' and a['spec']['bit']:
-            bit_seen = True
-        if a['a'] == 'RmEltorito' and bit_seen:
-            f.add('rm_eltorito_after_boot_info_table')
-    if CFGS[cfgname]['mode'] == 'always':
-        f.add('always_consistent')
     last_edit = None
+    secondary = bool(CFGS[cfgname]['joliet'] or CFGS[cfgname]['udf'])
+    reopened = False
+    udf_rm_after_reopen = False
     for a in acts:
-        if a['a'] == 'AddIsohybrid':
-            f.add('isohybrid_after_%s' % (last_edit or 'nothing'))
-            last_edit = 'AddIsohybrid'
-        elif a['a'] == 'ForceConsistency':
-            last_edit = 'ForceConsistency' if last_edit != 'AddIsohybrid' else last_edit
-        elif a['a'] == 'Reopen':
-            last_edit = 'Reopen' if last_edit != 'AddIsohybrid' else 'Reopen'
+        n = a['a']
+        if n == 'Reopen':
+            reopened = True
+        if n in ('RmFile', 'RmHardLink', 'RmEltorito') and reopened and CFGS[cfgname]['udf']:
+            udf_rm_after_reopen = True
+        if n == 'AddFile':
+            files[a['n']] = a['blob']
+        elif n == 'AddEltorito':
+            sp = a['spec']
+            if ents and not sp['bootable']:
+                f.add('nonbootable_section_entry')
+            ln = BLOBINFO[files[a['f']]]['len']
+            cnt = (sp['load'] or ((ln + 2047) // 2048) * 4) if sp['media'] == 'noemul' else 1
+            plat = sp['platform'] if not ents else (239 if sp['efi'] else ents[0]['vplat'])
+            ents.append({'name': a['f'], 'vis': 'all', 'plat': plat, 'vplat': sp['platform'] if not ents else ents[0]['vplat'],
+                         'count': cnt})
+            bit_seen = bit_seen or sp['bit']
+        elif n == 'RmHardLink':
+            for e in ents:
+                if e['name'] == a['n'] and e['vis'] == 'all':
+                    e['vis'] = 'none' if (a['scope'] == 'all' or not secondary) else 'sec'
+            if a['scope'] == 'all':
+                files.pop(a['n'], None)
+        elif n == 'RmFile':
+            files.pop(a['n'], None)
+        elif n == 'RmEltorito':
+            if any(e['vis'] == 'none' for e in ents):
+                f.add('after_rm_eltorito_with_unlinked_boot_file')
+            if bit_seen:
+                f.add('rm_eltorito_after_boot_info_table')
+            ents = []
+        elif n == 'Reopen':
+            if any(e['vis'] == 'none' for e in ents):
+                f.add('unlinked_boot_file_reopened')
+            if any(e['vis'] == 'sec' for e in ents):
+                f.add('boot_file_without_iso_name_reopened')
+            if hyb is not None:
+                f.add('hybrid_reopened')
+        if n == 'AddIsohybrid':
+            hyb = a['spec']
+            f.discard('isohybrid_on_consistent_object')
+            if last_edit in ('ForceConsistency', 'Reopen', None) or CFGS[cfgname]['mode'] == 'always':
+                f.add('isohybrid_on_consistent_object')
+        elif n == 'RmIsohybrid':
+            hyb = None
+            f.discard('isohybrid_on_consistent_object')
+        elif n in ('ForceConsistency', 'Reopen'):
+            last_edit = n
         else:
             last_edit = 'edit'
+            f.discard('isohybrid_on_consistent_object')     # the edit marks the metadata stale
+    if any(e['vis'] == 'sec' for e in ents):
+        f.add('boot_file_without_iso_name')
+    if any(e['vis'] == 'none' for e in ents):
+        f.add('unlinked_boot_file')
+    if udf_rm_after_reopen:
+        f.add('udf_name_removed_after_reopen')
+    if CFGS[cfgname]['mode'] == 'always':
+        f.add('always_consistent')
+        if hyb is not None:
+            f.add('isohybrid_on_consistent_object')
+    if hyb is not None:
+        efi = hyb['efi'] == 'yes' or (hyb['efi'] == 'none' and hyb['mac'])
+        if efi:
+            f.add('efi')
+        if hyb['mac']:
+            f.add('mac')
+        if (efi and hyb['entry'] == 2) or (hyb['mac'] and hyb['entry'] in (2, 3)):
+            f.add('part_entry_collides_with_efi_or_mac_slot')
+        efis = [k for k in range(1, len(ents)) if ents[k]['plat'] == 239]
+        if not efi and efis:
+            f.add('bios_hybrid_with_efi_section')
+        if len(efis) > (2 if hyb['mac'] else 1 if efi else 0):
+            f.add('more_efi_sections_than_used')
+        if any(ents[k]['name'] == ents[j]['name'] for k in efis[:2] for j in range(k)):
+            f.add('efi_section_shares_file_with_earlier_entry')
+        if len(efis) >= 2:
+            order = sorted(efis, key=lambda k: NAMES[ents[k]['name']]['iso'] if ents[k]['vis'] == 'all' else 'AAAAAAAA.;1')
+            if order != efis:
+                f.add('efi_sections_name_order_differs_from_catalog_order')
+        if efis and ents[efis[0]]['count'] != ents[-1]['count']:
+            f.add('efi_section_size_differs_from_last_section')
+        if len(efis) >= 2 and ents[efis[1]]['count'] != ents[-1]['count']:
+            f.add('mac_section_size_differs_from_last_section')
+        if len([e for e in ents if e['plat'] == 0]) > 1:
+            f.add('several_platform0_entries')
+        if not ents:
+            f.add('hybrid_without_eltorito')
     return f
 
 
@@ -571,20 +674,75 @@ def judge_items(module, items, batch=500, procs=4):
     return {iid: fails[u] for iid, u in ids.items() if u in fails}, len(uniq), stats
 
 
+def shrink(hist, cfgname, module, clause, want_hybrid=False, rounds=40):
+    """greedy one-step-removal shrinking of a failing behaviour; the model (TLC) recomputes the
+    expected outcomes of every candidate, the real library is replayed and TLC judges again."""
+    acts = [s['act'] for s in hist['h']]
+    best = hist
+    for _ in range(rounds):
+        cands = [acts[:k] + acts[k + 1:] for k in range(len(acts))]
+        cands = [c for c in cands if c]
+        if not cands:
+            break
+        hs = oracle(cands)
+        items = []
+        for n, hh in enumerate(hs):
+            if any(st['taint'] for st in hh['h']):
+                continue
+            r = run_history(hh, cfgname, want_hybrid)
+            if r['kind'] == 'item':
+                r['item']['id'] = 's%d' % n
+                items.append(r['item'])
+        fails, _, _ = judge_items(module, items)
+        good = [int(i[1:]) for i, cl in fails.items() if clause in cl]
+        if not good:
+            break
+        k = min(good, key=lambda n: len(fails['s%d' % n]))
+        best = hs[k]
+        acts = cands[k]
+    return best
+
+
 # ---------------------------------------------------------------------------------------------
 # C11
 # ---------------------------------------------------------------------------------------------
 def c11_circumstance(clause, hist, cfgname, item):
-    fs = facts(hist, cfgname)
-    exp = hist['exp']
-    if clause == 'FilesAsExpected' and 'rm_eltorito_after_boot_info_table' in fs and not exp['boot']:
-        return 'rm_eltorito_after_boot_info_table'
+    """the known-defect trigger (a fact of the behaviour, in model terms) that can explain a failing
+    clause; 'none' if there is none.  Classification only: TLC has already decided that it fails."""
+    div = item['expect']['div']
+    fs = facts(hist, cfgname, div[0]['k'] - 1 if div else None)
     if clause == 'ApiOutcomeAsModelled':
-        d = item['expect']['div'][0]
-        return '%s/%s:%s->%s' % (d['act'], d['why'] or 'accepted', d['want'], d['got'].split(':')[0] + (':' + d['got'].split(':')[1] if d['got'].startswith('error') else ''))
+        d = div[0]
+        if d['act'] == 'Reopen' and 'nonbootable_section_entry' in fs:
+            return 'nonbootable_section_entry'
+        if 'after_rm_eltorito_with_unlinked_boot_file' in fs:
+            return 'after_rm_eltorito_with_unlinked_boot_file'
+        if d['act'] == 'Reopen' and 'UDF Anchors' in d['got'] and 'udf_name_removed_after_reopen' in fs:
+            return 'udf_name_removed_after_reopen'
+        return '%s/%s:%s->%s' % (d['act'], d['why'] or 'accepted', d['want'], ':'.join(d['got'].split(':')[:2]))
+    if 'after_rm_eltorito_with_unlinked_boot_file' in fs:
+        return 'after_rm_eltorito_with_unlinked_boot_file'      # the object is corrupt from there on
+    if clause == 'ReadBackPossible' and 'UDF Anchors' in item.get('open_error', '') and 'udf_name_removed_after_reopen' in fs:
+        return 'udf_name_removed_after_reopen'                   # not El Torito's: UDF space accounting
     if clause == 'Mastered':
-        return item['expect']['master']
-    return 'any'
+        return ':'.join(item['expect']['master'].split(':')[:2])
+    if clause == 'ReadBackPossible' and 'nonbootable_section_entry' in fs:
+        return 'nonbootable_section_entry'
+    rm_bit = ('FilesAsExpected', 'LoadRbaIsWhereBootBytesStart', 'ReadBackUnpatched', 'BootInfoTable')
+    reopened = ('FilesAsExpected', 'LoadRbaIsWhereBootBytesStart', 'BootInfoTable', 'ReadBackUnpatched')
+    base = clause.split('.')[0]
+    if base in reopened and 'unlinked_boot_file_reopened' in fs:
+        return 'unlinked_boot_file_reopened'
+    if base in reopened and 'boot_file_without_iso_name_reopened' in fs:
+        return 'boot_file_without_iso_name_reopened'
+    if base in ('ReadBackUnpatched', 'BootInfoTable') and '.open.' in clause and 'boot_file_without_iso_name' in fs \
+            and clause.split('.')[-1] in ('jol', 'udf'):
+        return 'boot_file_without_iso_name'
+    if base in rm_bit and 'rm_eltorito_after_boot_info_table' in fs:
+        return 'rm_eltorito_after_boot_info_table'
+    if clause.endswith('.udf'):
+        return 'udf_name'
+    return 'none'
 
 
 def run(ctx):
